@@ -269,5 +269,7 @@ def run(ctx):
     from . import c08
     from .c06 import _Prefixed
     c08.step_rules(_Prefixed(ctx, "batch-"), m, "MarketEnv", StepShape(m, m.menv_fn("step"), "market"))
+    # .. and an instruction delivered through Market::process_event is the direct call on the addressed book (C08's dispatch rule)
+    c08.dispatch_rules(_Prefixed(ctx, "event-"), m, owners=("Market",))
     ctx.note("get_order_book_mut hands out &mut to one book (documented API); the shared-clock clause assumes callers do not desynchronise books through it")
     ctx.assume("ASSETS >= 1 (get_time reads book 0)")
